@@ -264,6 +264,28 @@ func runC16(c *explore.Ctx) {
 	sent("sentences-exec", execSide, false, c.Pick(7, 9))
 	sent("sentences-sdl", sdlSide, true, c.Pick(6, 7))
 
+	// the long profile documents (every construct of both grammars, the keywords the core alphabet leaves out:
+	// directive definitions with `repeatable`, enums, scalars, descriptions, block strings) × every limit
+	if sp := c.Sub("limits-profiles", fmt.Sprintf("the %d executable and %d type-system profile documents × every limit −2 … N+2", len(gen.ExecProfiles), len(gen.SDLProfiles)),
+		"as above (exactness at the boundary N = L, N = L+1; every token of every construct is charged once)", "every case"); sp != nil {
+		t0 := time.Now()
+		idx := 0
+		for _, set := range []struct {
+			docs []string
+			sdl  bool
+		}{{gen.ExecProfiles, false}, {gen.SDLProfiles, true}} {
+			for _, d := range set.docs {
+				idx++
+				if idx%c.NShards != c.Shard {
+					continue
+				}
+				sp.States++
+				c16Case(c, sp, d, set.sdl)
+			}
+		}
+		sp.WallS = time.Since(t0).Seconds()
+	}
+
 	// several sources: the limit applies to each source
 	s0 := c.Sub("limits-sources", "every ordered pair of type-system sentences of ≤ 3 tokens (core alphabet; schema definitions / extensions one token longer) as two sources × every assignment of the built-in flag × every limit −1 … max(N₁,N₂)+1 through ParseSchemasWithLimit",
 		"succeeds ⇔ every source parses without a limit ∧ (L = 0 ∨ every source has at most L tokens); identical tree on success; the slice the caller hands in holds the same sources afterwards (empty and comment-only sources included)", "pairs that parse")
@@ -293,6 +315,27 @@ func runC16(c *explore.Ctx) {
 				for flags := 0; flags < 4; flags++ {
 					srcs := func() []*ast.Source {
 						return []*ast.Source{{Input: a, Name: "a", BuiltIn: flags&1 != 0}, {Input: b, Name: "b", BuiltIn: flags&2 != 0}}
+					}
+					if flags == 0 && ea == nil && eb == nil {
+						// the same *Source listed twice, and two sources that carry the same name: a source list is a
+						// list, every element is parsed (as the unlimited entry point does)
+						fresh := []*ast.Source{{Input: a, Name: "a"}, {Input: b, Name: "b"}, {Input: a, Name: "a2"}}
+						want3, werr := parser.ParseSchemas(fresh...)
+						sa, sb := &ast.Source{Input: a, Name: "a"}, &ast.Source{Input: b, Name: "b"}
+						for _, variant := range []struct {
+							name string
+							srcs []*ast.Source
+						}{{"same-pointer-twice", []*ast.Source{sa, sb, sa}}, {"same-name", []*ast.Source{{Input: a, Name: "same.graphql"}, {Input: b, Name: "same.graphql"}, {Input: a, Name: "same.graphql"}}}} {
+							for _, limit := range []int{0, na + nb + 1} {
+								s0.Executions++
+								d3, err3 := parser.ParseSchemasWithLimit(limit, variant.srcs...)
+								in := sourcesInput{Sources: []string{a, b, a}, BuiltIn: []bool{false, false, false}}
+								if (err3 == nil) != (werr == nil) || (err3 == nil && projSDL(d3) != projSDL(want3)) {
+									c.Report(s0, explore.Violation{Key: "limit/sources-tree-differs " + variant.name, Input: explore.J(in), Rendered: fmt.Sprintf("%s\n---\n%s\n---\n%s   %s limit=%d", a, b, a, variant.name, limit),
+										Detail: fmt.Sprintf("ParseSchemasWithLimit(%d, s, t, s) [%s] does not build the tree ParseSchemas builds from three separate sources with these texts (err=%v)", limit, variant.name, err3)})
+								}
+							}
+						}
 					}
 					ud, uerr := parser.ParseSchemas(srcs()...)
 					max := na
